@@ -21,6 +21,13 @@ STRENGTHENED = [
     ("seeded/C05-b", "argument nodes shared between uses after inlining (sequential instead of simultaneous substitution; the mutant also loops forever)", "C05 inner called lambdas that use their parameter twice; per-case watchdog in the harness (non-termination = violation)"),
     ("seeded/C06-b", "shallow copy shares a constructor call's argument list between two uses", "C06 routes the constructor through a helper / called lambda that uses it twice; defaulted fields that calls may skip"),
     ("seeded/C13-b", "check_ast skips lambdas of nested operators", "C13 capture entry points two lambdas below the passed one"),
+    ("seeded/C17-b", "an AST node object shared between two positions of the input (the transformer memoises by node identity)", "C17 inputs are DAGs: equal sub-trees are merged into one shared node object before the pass runs"),
+    ("seeded/C01-b", "record (dataclass / NamedTuple) constructor with a trailing field that has a default and is omitted by the call", "C01 record classes with optional trailing fields (Q3 / QN3 and an OMITTED sentinel in the python-direct run)"),
+    ("seeded/C18-b", "called lambda whose default value indexes a literal by a name that is free only in that default", "typed generator: default values of called lambdas may mention outer variables and a free scalar k0; more defaulted called lambdas"),
+    ("seeded/C03-b", "two lambdas with the same argument names on one physical line after re-layout", "C03 random re-layout of every family (line breaks at any token boundary) and varied dataset variable names"),
+    ("seeded/C01-c", "nested operator whose lambda re-uses the enclosing lambda's argument name, the outer variable used afterwards, same method name on both classes with different defaults", "typed model: scaled() on Evt, Jet and Trk with different parameter order and defaults; generator shape 'outer variable used after a nested operator' (also caught by C07 unchanged)"),
+    ("seeded/C02-c", "top-level `or` in the earlier of two adjacent filters", "typed generator `filter_body`: half of all Where predicates get deliberate top-level boolean structure (or / and / not / conditional / chained comparison)"),
+    ("seeded/C08-c", "generic subclass with more type parameters than its base uses", "C08 skeleton: Tag(Box[K], Generic[K,V]), Tag2(Box[V], ...), Swap(Pair[U,T], ...), HalfPair(Pair[T,int]), It2(Iterable[V], ...), TagInts(Tag[int,V]); class names taken from typing. This extension also exposed the genuine defects D29 and D30"),
 ]
 
 
@@ -58,7 +65,7 @@ def main():
               "| change | what it needs | strengthening |", "|---|---|---|"]
     for a, b, c in STRENGTHENED:
         lines.append(f"| {a} | {b} | {c} |")
-    lines += ["", "Caught at the first attempt: seeded/C19, C15, C15-b, C20, C16, C16-b, C13, C14, C09, C09-b, C12, C12-b, C03, C03-b, C02-b, C04-b, C07-b, C08-b.",
+    lines += ["", "Caught at the first attempt: seeded/C19, C19-b, C15, C15-b, C20, C20-b, C16, C16-b, C13, C14, C14-b, C09, C09-b, C12, C12-b, C03, C02-b, C04-b, C04-c, C07-b, C07-c, C08-b.",
               "Recurring lesson: most seeded changes need either a *naming coincidence* (same binder / method / variable name in two roles) or",
               "*process-level history* (a cache or shared default filled by an earlier query); generators must produce both on purpose.", ""]
     p = os.path.join(HERE, "DESIGN.md")
